@@ -99,6 +99,16 @@ struct Co { // copy-only: no move operations are declared, rvalues are copied
         return *this;
     }
 };
+// key + payload: ordered by the key alone, equal when key and payload are; deliberately NO operator<=> (std::pair then uses the
+// three-way comparison synthesised from operator<).  The equivalence of < is coarser than ==: KP(2) and KP(3) are equivalent, not
+// equal - a lexicographic comparison that decides the tie on `first` by == instead of "neither is less" shows only here.
+struct KP {
+    int key;
+    int tag;
+    KP(int v) : key(v >> 1), tag(v & 1) { }
+    friend bool operator<(KP const& l, KP const& r) { return l.key < r.key; }
+    friend bool operator==(KP const& l, KP const& r) { return l.key == r.key && l.tag == r.tag; }
+};
 inline int val(int x) { return x; }
 inline int val(Trk const& x) { return x.v; }
 inline int val(Mo const& x) { return x.v; }
@@ -385,6 +395,19 @@ inline std::string pair_cmp(std::string const& e, std::vector<long long> const& 
         typename L::template pair<int, int> p(static_cast<int>(a[0]), static_cast<int>(a[1])), q(static_cast<int>(b[0]), static_cast<int>(b[1]));
         return bits(p, q);
     }
+    if (e == "kp") {
+        typename L::template pair<KP, KP> p{KP(int(a[0])), KP(int(a[1]))}, q{KP(int(b[0])), KP(int(b[1]))};
+        return bits(p, q);
+    }
+    if (e == "kpi") {
+        typename L::template pair<KP, int> p{KP(int(a[0])), int(a[1])}, q{KP(int(b[0])), int(b[1])};
+        return bits(p, q);
+    }
+    if (e == "ikp") {
+        typename L::template pair<int, KP> p{int(a[0]), KP(int(a[1]))}, q{int(b[0]), KP(int(b[1]))};
+        return bits(p, q);
+    }
+    if (e != "dbl") return "bad-op";
     auto d = [](long long v) { return v == 9 ? std::numeric_limits<double>::quiet_NaN() : double(v); };
     typename L::template pair<double, double> p(d(a[0]), d(a[1])), q(d(b[0]), d(b[1]));
     return bits(p, q);
@@ -1047,6 +1070,14 @@ inline std::string tuple_eq_apply(std::string const& op, Line const& l)
     };
     if (op == "eq") {
         auto const& b = l.list("b");
+        if (l.has("e")) {       // e=kp: elements whose == looks at more than their < does
+            if (l.str("e") != "kp") return "bad-op";
+            using TK = typename tup_n<L, KP, N>::type;
+            auto x = mk(std::type_identity<TK>{}, a), y = mk(std::type_identity<TK>{}, b);
+            bool e = x == y, ne = x != y;
+            if (e == ne) return "!ne";
+            return proto::fmt_bool(e);
+        }
         auto x = mk(std::type_identity<TI>{}, a), y = mk(std::type_identity<TI>{}, b);
         bool e = x == y, ne = x != y;
         if (e == ne) return "!ne";
